@@ -199,7 +199,12 @@ CHECKS["C10"] = dict(
         "byte clock and unlocked and the framer idle (never left deaf by its own state machine), and the sync gate is then open to the next "
         "preamble; no burst is read forever; the discrete part has no reachable panic site (squelch expect(), C17's construction sites); "
         "once what a hostile history left in the assembler has expired it answers every further history exactly as a new one; two intact "
-        "copies of a header outvote any burst left next to them (C03). Sampled on the real receiver: hostile prefixes composed from a "
+        "copies of a header outvote any burst left next to them (C03). For the WHOLE discrete receiver (every item stream): it is time-shift "
+        "invariant; every reachable state becomes quiesced under silence (32 symbols idle the link, 6335 more release and expire all the "
+        "assembler holds; only an armed 135 s timer outlasts silence, and C09 resolves it); and a quiesced receiver is observationally a "
+        "NEW one: after the 32 symbols a new receiver needs to fill its correlator, ANY input yields exactly the new receiver's events with "
+        "timestamps offset by the samples consumed (end-to-end theorem C10_hostile_audio_has_no_lasting_effect, with a non-vacuity "
+        "witness). Sampled on the real receiver: hostile prefixes composed from a "
         "17-generator library (clipping square waves up to 2^20, DC steps, noise, tones, endless preamble/carrier, truncated and malformed "
         "transmissions, level jumps, preamble-like tails), a 1..2 s gap, a clean transmission: no panic, finite state, decoded exactly, "
         "tick-trace replay equal.",
@@ -218,7 +223,7 @@ CHECKS["C11"] = dict(
         "(next message, or at end of input flush; print; repeat - it never looks at the child) produces; with --quiet nothing is printed; "
         "the specification is deterministic in its fuel. Tie on every run: recordings of 0..4 transmissions (lossy, header after header, "
         "close-cut, odd trailing byte, 8000..48000 Hz) are decoded by the library, run through the EXTRACTED App model, and through the built "
-        "binary under 8 option/child/stdin variants: stdout(binary) == o_stdout(model) == library messages, exit 0.",
+        "binary under 10 option/child/input variants (--file, the file as standard input, a pipe written in odd-sized chunks with a pause): stdout(binary) == o_stdout(model) == library messages, exit 0.",
    note=APP_NOTE,
    technique="Coq refinement proof (app loop vs print-every-message spec) + extracted-model / binary / library three-way correspondence",
    ref="§5 C11, §11")
